@@ -3,6 +3,7 @@ import re
 
 from . import absint as A
 from .lib import PLUMBING, borrow_root, callee_allow, callers, closure_args_of_call, operand_local, result_split, try_edges
+from .lib_c02 import compatible, discr_edge_sets, region_states, show_facts
 from .lib_c01 import (VALUE_PRESERVING, access_path, always_err_try_edges, bool_switch_of_call, conflict_loop, const_reach, dead_ends, edge_is_rejecting,
                       enum_switches, ok_return_blocks, option_edges, outermost_fn, resolve_path, sources, Renamed, PRE_FIX_F3_EDITS)
 
@@ -47,8 +48,10 @@ def _ins(ctx, R):
 def r1_validation_before_insert(ctx):
     R = ctx.rule("C02.R1", "HttpRouter::insert has one caller (_register); there it is dominated by the Continue edges of validate_tags(&e)?, validate_path_parameters(&e)? and "
                  "validate_named_parameters(&e)? on the endpoint that is inserted; register returns _register's Err", floor=9)
-    ins = _ins(ctx, R)
-    cs = callers(ctx.ds, r"^router::HttpRouter::<Context>::insert$")
+    # evaluated on the normalised view: `a(..)?; b(..)?` and `a(..).and_then(|()| b(..))?` are the same switches on the results' discriminants there
+    ds = ctx.dsn
+    ins = ctx.need_fn(ds, R, r"^router::HttpRouter::<Context>::insert$")
+    cs = callers(ds, r"^router::HttpRouter::<Context>::insert$")
     ctx.check(R, "single-insert-caller", len(cs) == 1, "HttpRouter::insert is called from %s" % sorted(f.id for f, _, _ in cs), ins)
     if len(cs) != 1:
         return
@@ -59,7 +62,7 @@ def r1_validation_before_insert(ctx):
               "insert(%r, %r)" % (pr, pe), (reg, ibb))
     for v in ("validate_tags", "validate_path_parameters", "validate_named_parameters"):
         vc = reg.live_calls(r"^api_description::ApiDescription::<Context>::%s$" % v)
-        allv = callers(ctx.ds, r"^api_description::ApiDescription::<Context>::%s$" % v)
+        allv = callers(ds, r"^api_description::ApiDescription::<Context>::%s$" % v)
         if len(vc) != 1:
             ctx.check(R, "%s-dominates-insert" % v, False, "%s is called %d time(s) in %s: an endpoint reaches the router without this validation" % (v, len(vc), reg.id), (reg, ibb))
             continue
@@ -78,7 +81,7 @@ def r1_validation_before_insert(ctx):
         ctx.check(R, "%s-checks-the-inserted-endpoint" % v, pa.kind() == "param" and pa.root[1] == pe.root_local() and not pa.path and ps.kind() == "param" and ps.root[1] == pr.root_local() and not ps.path,
                   "%s(%r, %r); inserted: %r into %r" % (v, ps, pa, pe, pr), (reg, vbb))
     # register -> _register, error propagated
-    rc = callers(ctx.ds, "^" + re.escape(reg.id) + "$")
+    rc = callers(ds, "^" + re.escape(reg.id) + "$")
     okp = False
     d = "callers of %s: %s" % (reg.id, sorted(f.id for f, _, _ in rc))
     if len(rc) == 1:
@@ -557,7 +560,24 @@ def r5_parameter_rules(ctx):
             d = "sets differ -> never Ok: %s; sets equal -> Ok with no refusal on the way: %s" % (rej, acc)
         ctx.check(R, "vpp:mismatch-is-Err-and-match-is-Ok", okm, d, (vpp, bb))
     # ---------------- validate_named_parameters
-    vnp = ctx.need_fn(ctx.ds, R, r"^api_description::ApiDescription::<Context>::validate_named_parameters$")
+    _vnp_rules(ctx, R)
+
+
+METADATA = r"^api_description::ApiEndpointParameterMetadata$"
+MAP_LOOKUP = r"(BTreeMap::<K, V, A>|HashMap::<K, V, S, A>)::get$"
+MAP_HAS = r"(BTreeMap::<K, V, A>|HashMap::<K, V, S, A>)::contains_key$"
+OPT_COPY = [r"Option::<&T>::(copied|cloned)$", r"Option::<&mut T>::(copied|cloned)$"]
+
+
+def _vnp_rules(ctx, R):
+    """validate_named_parameters, decided from path conditions: for every way one iteration of the loop over e.parameters can end by
+    accepting the parameter (going on to the next one, or returning Ok) the facts established on that path - which metadata variant,
+    whether the name is a key of the path-variable map (contains_key / get is Some / get is None, through flags and tuples), which kind
+    the map holds for it, which type checks returned Ok - must satisfy the specification of every (variant, presence, kind) cell the
+    path is compatible with.  How the switches are nested, merged or ordered is irrelevant.  Evaluated on the normalised view, so
+    Option/Result combinators are the matches they abbreviate."""
+    ds = ctx.dsn
+    vnp = ctx.need_fn(ds, R, r"^api_description::ApiDescription::<Context>::validate_named_parameters$")
     # path_segments map: name -> kind of the template's variables, built by collect() of a filter_map or by inserts in a loop
     maps = []
     cands = [t["dest"] for bb, t in vnp.live_calls(r"iter::Iterator::collect$")] + [t["dest"] for bb, t in vnp.live_calls(FRESH_COLLECTION)]
@@ -572,7 +592,7 @@ def r5_parameter_rules(ctx):
         return
     comp = maps[0]
     mlocal, msl, hm = comp["local"], comp["src"], comp["ctx"]
-    sow = [k for k in ctx.ds.adts if k.endswith("validate_named_parameters::SegmentOrWildcard")]
+    sow = [k for k in ds.adts if k.endswith("validate_named_parameters::SegmentOrWildcard")]
     okmap = False
     d = "the map is not keyed by the variable kinds of the template"
     if len(sow) == 1:
@@ -591,11 +611,15 @@ def r5_parameter_rules(ctx):
                 got[v] = "?"
         okmap = src_ok and got == {"Literal": "None", "VarnameSegment": (True, "Segment"), "VarnameWildcard": (True, "Wildcard")} and msl.reads_field("path") and msl.params() == [2]
         d = "template segment -> map entry [%s idiom]: %s" % (comp["form"], dict(sorted(got.items(), key=lambda kv: kv[0])))
-    ctx.check(R, "vnp:path-variable-kinds-from-e.path", okmap and bool(re.match(r"^std::collections::(BTreeMap|HashMap)<std::string::String", vnp.local_ty(mlocal))), d, hm)
+    # once built the map is only read: every mutable borrow of it feeds one of the recognised inserts (none in the collect idiom)
+    mut_borrows = [bb for bb, i, st in vnp.stmts() if st["rv"]["rv"] in ("ref", "rawptr") and st["rv"].get("mut") and st["rv"]["pl"]["l"] == mlocal]
+    frozen = comp["form"] == "loop" or not mut_borrows
+    ctx.check(R, "vnp:path-variable-kinds-from-e.path", okmap and frozen and bool(re.match(r"^std::collections::(BTreeMap|HashMap)<std::string::String", vnp.local_ty(mlocal))),
+              d + ("" if frozen else "; the map is borrowed mutably after it was collected"), hm)
     # the loop over e.parameters
     loops = []
     for bb, t in vnp.live_calls(r"iter::Iterator::next$"):
-        p = access_path(vnp, t["args"][0], VP + [r"iter::IntoIterator::into_iter$", r"slice::<impl \\[T\\]>::iter$", r"vec::Vec::<T, A>::iter$"])
+        p = access_path(vnp, t["args"][0], VP + [r"iter::IntoIterator::into_iter$", r"slice::<impl \[T\]>::iter$", r"vec::Vec::<T, A>::iter$"])
         if p.kind() == "param" and p.root[1] == 2 and p.path == ["parameters"]:
             loops.append((bb, t))
     if len(loops) != 1:
@@ -607,97 +631,124 @@ def r5_parameter_rules(ctx):
         ctx.lost(R, "switch on the parameter iterator's next()")
         return
     nsw, n_some, n_none = ne
-    msw = [s for s in enum_switches(vnp, r"^api_description::ApiEndpointParameterMetadata$") if vnp.edge_dominates(nsw, n_some, s[0])]
-    okms = bool(msw)
-    for sbb, info, tg in msw:
-        p = access_path(vnp, info["place"], VP)
-        okms = okms and p.call() and p.call()[2] is nt and p.path == ["as Some", "0", "metadata"]
-    ctx.check(R, "vnp:dispatch-on-this-parameter's-metadata", okms, "switches on the current parameter's metadata inside the loop: %d" % len(msw), (vnp, nbb))
+    in_iter = vnp.reachable(n_some, avoid=[nbb])
+
+    def this_param(p, *suffix):
+        """p is <the element under iteration>.<suffix..>"""
+        return p.call() is not None and p.call()[2] is nt and p.npath()[:2] == ["+", "0"] and p.npath()[2:2 + len(suffix)] == list(suffix)
+
+    def is_own_name(op):
+        """every value the operand can hold is the name carried by this parameter's metadata (`Path(name)` / `Query(name)`; an or-pattern binds it once per alternative)"""
+        qs = sources(vnp, op, VP, avoid=[nbb])
+        return bool(qs) and all(this_param(q, "metadata") and len(q.path) == 5 and q.path[3] in ("as Path", "as Query") and q.path[4] == "0" for q in qs)
+
+    def is_map(op):
+        q = access_path(vnp, op, VP)
+        return q.root_local() == mlocal and not q.path and q.kind() in ("call", "local")
+
+    # ---- what each switch / boolean test inside the loop says
+    switch_facts, atom_facts, kill = {}, {}, {}
+    msw = []
+    foreign_md = 0
+    for sbb, info, tg in enum_switches(vnp, r".") :
+        if sbb not in in_iter:
+            continue
+        p = access_path(vnp, info["place"], VP + OPT_COPY)
+        sets = discr_edge_sets(vnp, sbb, info)
+        if re.search(METADATA, info["adt"]):
+            if this_param(p, "metadata") and len(p.path) == 3:
+                switch_facts.setdefault(sbb, []).append(("metadata", sets))
+                msw.append(sbb)
+            else:
+                foreign_md += 1
+            continue
+        if p.is_call(MAP_LOOKUP) and is_map(p.call()[2]["args"][0]) and is_own_name(p.call()[2]["args"][1]):
+            if not p.path and info["adt"] == "std::option::Option":
+                switch_facts.setdefault(sbb, []).append(("name-is-path-variable", {s: frozenset({"Some": "yes", "None": "no"}[v] for v in vs) for s, vs in sets.items()}))
+            elif p.npath() == ["+", "0"] and len(sow) == 1 and info["adt"] == sow[0]:
+                switch_facts.setdefault(sbb, []).append(("kind", sets))
+                switch_facts[sbb].append(("name-is-path-variable", {s: frozenset(["yes"]) for s in sets}))
+    for cbb, ct in vnp.live_calls(MAP_HAS):
+        if cbb in in_iter and is_map(ct["args"][0]) and is_own_name(ct["args"][1]):
+            atom_facts[cbb] = ("name-is-path-variable", "yes", "no")
+    for cbb, ct in vnp.live_calls(r"Option::<T>::(is_some|is_none)$"):
+        p = access_path(vnp, ct["args"][0], VP + OPT_COPY)
+        if cbb in in_iter and p.is_call(MAP_LOOKUP) and not p.path and is_map(p.call()[2]["args"][0]) and is_own_name(p.call()[2]["args"][1]):
+            atom_facts[cbb] = ("name-is-path-variable", "yes", "no") if ct["callee"].endswith("is_some") else ("name-is-path-variable", "no", "yes")
+    ctx.check(R, "vnp:dispatch-on-this-parameter's-metadata", bool(msw) and not foreign_md,
+              "switches on the current parameter's metadata inside the loop: %d; on some other metadata value: %d" % (len(msw), foreign_md), (vnp, nbb))
+    # ---- the type checks: applied to this parameter's own name, schema and dependencies; their outcome is a fact of the path
     checks = [(bb, t) for bb, t in vnp.live_calls(r"^type_util::type_is_(scalar|string_enum)$")]
-    want = {("Path", "Segment"): "type_is_scalar", ("Path", "Wildcard"): "type_is_string_enum", ("Query", None): "type_is_scalar"}
-    sites_by_variant = {"Path": [], "Query": []}
-    seen_cells = {}
-    ckc = [(bb, t) for bb, t in vnp.live_calls(r"(BTreeMap::<K, V, A>|HashMap::<K, V, S, A>)::contains_key$")]
+    passed_dim = {}
+    bad_sites = []
     for cbb, ct in checks:
         fnname = ct["callee"].split("::")[-1]
-        pn = access_path(vnp, ct["args"][1], VP)
-        psch = access_path(vnp, ct["args"][2], VP)
-        pdep = access_path(vnp, ct["args"][3], VP)
-        var = None
-        if pn.call() and pn.call()[2] is nt and len(pn.path) == 5 and pn.path[:3] == ["as Some", "0", "metadata"] and pn.path[4] == "0":
-            var = pn.path[3][3:]
-        ok_args = var in ("Path", "Query") and psch.call() and psch.call()[2] is nt and psch.path[:3] == ["as Some", "0", "schema"] and psch.path[-1] == "schema" and \
-            pdep.call() and pdep.call()[2] is nt and pdep.path[:3] == ["as Some", "0", "schema"] and pdep.path[-1] == "dependencies"
-        guarded = var is not None and any(tg.get(var) is not None and vnp.edge_dominates(sbb, tg[var], cbb) and
-                                          all(tg.get(o) != tg[var] for o in tg if o != var) for sbb, info, tg in msw)
-        kind = None
-        kguard = True
-        if var == "Path":
-            kguard = False
-            for sbb, info, tg in enum_switches(vnp, r"validate_named_parameters::SegmentOrWildcard$"):
-                p = access_path(vnp, info["place"], VP)
-                if not (p.is_call(r"(BTreeMap::<K, V, A>|HashMap::<K, V, S, A>)::get$") and p.path == ["as Some", "0"]):
-                    continue
-                gt = p.call()[2]
-                gm, gk = access_path(vnp, gt["args"][0], VP), access_path(vnp, gt["args"][1], VP)
-                if gm.root_local() != mlocal or gm.path or gk.root != pn.root or gk.path != pn.path:
-                    continue
-                for k, tt in tg.items():
-                    if vnp.edge_dominates(sbb, tt, cbb) and all(tg[o] != tt for o in tg if o != k):
-                        kind = k
-                        kguard = True
-        elif var == "Query":
-            # only after the name was found not to be a path variable
-            kguard = False
-            for kbb, kt in ckc:
-                km, kk = access_path(vnp, kt["args"][0], VP), access_path(vnp, kt["args"][1], VP)
-                sw = bool_switch_of_call(vnp, kbb, kt)
-                if sw and km.root_local() == mlocal and not km.path and kk.root == pn.root and kk.path == pn.path and vnp.edge_dominates(sw[0], sw[2], cbb):
-                    kguard = True
-        sp = result_split(vnp, ct["dest"]["l"])        # `check(..)?`, match, if-let-Err alike
-        prop = sp is not None and edge_is_rejecting(vnp, sp["switch_bb"], sp["err"]) and nbb not in vnp.reachable(sp["err"])
-        cell = (var, kind)
-        seen_cells.setdefault(cell, []).append(fnname)
-        if var in sites_by_variant:
-            sites_by_variant[var].append(cbb)
-        ctx.check(R, "vnp:check:%s%s" % (var, ("+" + kind) if kind else ""), ok_args and guarded and kguard and want.get(cell) == fnname and prop,
-                  "%s(op, %r, %r, ..) under metadata=%s%s; expected %s; name/schema are this parameter's: %s; guard edges dominate: %s; its Err is returned: %s"
-                  % (fnname, pn, psch, var, ("/" + kind) if kind else "", want.get(cell), bool(ok_args), guarded and kguard, prop), (vnp, cbb))
-    ctx.check(R, "vnp:three-guarded-checks", {k: sorted(v) for k, v in seen_cells.items()} == {k: [v] for k, v in want.items()},
-              "cells found: %s" % {("%s/%s" % k): v for k, v in seen_cells.items()}, vnp)
-    # completeness: a Path / Query parameter cannot get back to the loop head (or to Ok) without its check
-    for var in ("Path", "Query"):
-        avoid_e = []
-        for sbb, info, tg in msw:
-            for o, tt in tg.items():
-                if o != var and tt != tg.get(var):
-                    avoid_e.append((sbb, tt))
-            oth = vnp.blocks[sbb]["term"]["otherwise"]
-            if oth not in tg.values():
-                avoid_e.append((sbb, oth))
-        r = const_reach(vnp, n_some, avoid=sites_by_variant[var], avoid_edges=avoid_e)      # constant flags (matches!) are propagated
-        esc = nbb in r or any(b in r for b in ok_return_blocks(vnp))
-        ctx.check(R, "vnp:every-%s-parameter-is-checked" % var, bool(sites_by_variant[var]) and not esc,
-                  "a %s parameter can reach the next iteration / Ok without passing a type check: %s" % (var, esc), (vnp, nbb))
-    # Query name that is also a path variable
-    okd = False
-    d = "no contains_key(path variables, query name) test"
-    for kbb, kt in ckc:
-        km, kk = access_path(vnp, kt["args"][0], VP), access_path(vnp, kt["args"][1], VP)
-        if km.root_local() == mlocal and not km.path and kk.call() and kk.call()[2] is nt and kk.path == ["as Some", "0", "metadata", "as Query", "0"]:
-            sw = bool_switch_of_call(vnp, kbb, kt)
-            if sw:
-                rej = edge_is_rejecting(vnp, sw[0], sw[1]) and nbb not in vnp.reachable(sw[1])
-                qguard = any(tg.get("Query") is not None and vnp.edge_dominates(sbb, tg["Query"], kbb) for sbb, info, tg in msw)
-                must = True
-                for sbb, info, tg in msw:
-                    if tg.get("Query") is not None and all(tg[o] != tg["Query"] for o in tg if o != "Query") and vnp.edge_dominates(sbb, tg["Query"], kbb):
-                        must = nbb not in vnp.reachable(tg["Query"], avoid=[kbb])
-                okd = rej and qguard and must
-                d = "contains_key(path variables, %r): true -> Err, never Ok / next iteration: %s; every Query parameter passes this test: %s" % (kk, rej, must)
-    ctx.check(R, "vnp:query-name-clashing-with-path-variable-refused", okd, d, vnp)
-    # Ok only when the loop is exhausted
+        schs = sources(vnp, ct["args"][2], VP, avoid=[nbb])
+        deps = sources(vnp, ct["args"][3], VP, avoid=[nbb])
+        ok_args = cbb in in_iter and is_own_name(ct["args"][1]) and \
+            bool(schs) and all(this_param(q, "schema") and q.path[-1] == "schema" and len(q.path) > 3 for q in schs) and \
+            bool(deps) and all(this_param(q, "schema") and q.path[-1] == "dependencies" for q in deps)
+        sp = result_split(vnp, ct["dest"]["l"])        # `check(..)?`, match, if-let-Err, let-else alike
+        if not ok_args or sp is None:
+            bad_sites.append("%s(.., %r, %r, ..)%s" % (fnname, access_path(vnp, ct["args"][1], VP), access_path(vnp, ct["args"][2], VP), "" if sp else " whose result is never split into Ok / Err"))
+            continue
+        dim = ("result", fnname, cbb)
+        passed_dim[dim] = fnname
+        switch_facts.setdefault(sp["switch_bb"], []).append((dim, {sp["ok"]: frozenset(["Ok"]), sp["err"]: frozenset(["Err"])}))
+        kill.setdefault(cbb, []).append(dim)
+    for cbb, ct in vnp.live_calls(r"Result::<T, E>::(is_ok|is_err)$"):
+        p = access_path(vnp, ct["args"][0], VP)
+        if p.call() is not None and not p.path:
+            for dim in passed_dim:
+                if dim[2] == p.call()[1]:
+                    atom_facts[cbb] = (dim, "Ok", "Err") if ct["callee"].endswith("is_ok") else (dim, "Err", "Ok")
+    ctx.check(R, "vnp:type-checks-apply-to-this-parameter", bool(checks) and not bad_sites,
+              "type_is_scalar / type_is_string_enum calls in the loop: %d; not applied to this parameter's own name, Static schema and dependencies: %s" % (len(checks), bad_sites or "none"), vnp)
+    # ---- every way an iteration can accept its parameter
     oks = ok_return_blocks(vnp)
+    states = region_states(vnp, n_some, stops=[nbb] + oks, switch_facts=switch_facts, atom_facts=atom_facts, kill=kill)
+    if states is None:
+        ctx.lost(R, "path conditions of the parameter loop (state budget exceeded)")
+        return
+    accepting = [(b, f) for k, b, f in states if k == "stop"]
+
+    def passed(f):
+        return sorted(set(fnname for dim, fnname in passed_dim.items() if f.get(dim) == frozenset(["Ok"])))
+
+    cells = [
+        ("vnp:check:Path+Segment", {"metadata": "Path", "name-is-path-variable": "yes", "kind": "Segment"}, "type_is_scalar",
+         "a Path parameter bound to a single-segment variable"),
+        ("vnp:check:Path+Wildcard", {"metadata": "Path", "name-is-path-variable": "yes", "kind": "Wildcard"}, "type_is_string_enum",
+         "a Path parameter bound to a wildcard variable"),
+        ("vnp:check:Query", {"metadata": "Query", "name-is-path-variable": "no"}, "type_is_scalar",
+         "a Query parameter whose name is not a path variable"),
+    ]
+    for key, cell, want, what in cells:
+        acc = [(b, f) for b, f in accepting if compatible(f, cell)]
+        bad = [(b, f) for b, f in acc if want not in passed(f)]
+        d = "%s is accepted on %d path class(es), each only after %s(this name, this schema, ..) returned Ok" % (what, len(acc), want)
+        if bad:
+            b, f = bad[0]
+            d = "%s can be accepted without %s having returned Ok: a path with facts %s (checks passed: %s) goes on to %s" % (
+                what, want, show_facts({k: v for k, v in f.items() if isinstance(k, str)}), passed(f) or "none", "the next parameter" if b == nbb else "Ok(())")
+        ctx.check(R, key, not bad, d, (vnp, bad[0][0] if bad else nbb))
+    for var in ("Path", "Query"):
+        acc = [(b, f) for b, f in accepting if compatible(f, {"metadata": var})]
+        bad = [(b, f) for b, f in acc if not passed(f)]
+        ctx.check(R, "vnp:every-%s-parameter-is-checked" % var, not bad,
+                  "a %s parameter can reach the next iteration / Ok without passing a type check: %s%s" % (var, bool(bad), (" - facts " + show_facts(bad[0][1])) if bad else ""), (vnp, nbb))
+    # Query name that is also a path variable: never accepted
+    clash = {"metadata": "Query", "name-is-path-variable": "yes"}
+    bad = [(b, f) for b, f in accepting if compatible(f, clash)]
+    tested = any(d == "name-is-path-variable" for v in switch_facts.values() for d, _ in v) or any(v[0] == "name-is-path-variable" for v in atom_facts.values())
+    refusing = [(k, b) for k, b, f in states if k != "stop" and f.get("metadata") == frozenset(["Query"]) and f.get("name-is-path-variable") == frozenset(["yes"])]
+    d = "a Query parameter whose name is a key of the path-variable map ends the registration (Err / panic) on %d path class(es) and is never accepted: %s" % (len(refusing), not bad)
+    if bad:
+        d = "a Query parameter whose name is also a path variable is accepted: a path with facts %s goes on to %s" % (show_facts(bad[0][1]), "the next parameter" if bad[0][0] == nbb else "Ok(())")
+    elif not tested:
+        d = "no test whether the parameter's name is a key of the path-variable map (contains_key / get)"
+    ctx.check(R, "vnp:query-name-clashing-with-path-variable-refused", not bad and tested and bool(refusing), d, vnp)
+    # Ok only when the loop is exhausted
     ctx.check(R, "vnp:Ok-only-after-all-parameters", bool(oks) and all(vnp.edge_dominates(nsw, n_none, b) for b in oks), "Ok(()) is dominated by the None edge of the parameter iterator", vnp)
 
 
